@@ -15,7 +15,8 @@ ASSUMPTIONS = [
     "free variables are selected; row sets are compared",
     "optionally evaluated with caching disabled as well (spec key cache=off)",
 ]
-BOUNDS = {"quick": dict(free_domain=3, universal_domain="1..2 (3 for single leaves)", leaves="L<=2 in the quantified condition"),
+BOUNDS = {"quick": dict(free_domain=3, universal_domain="1..2 (3 for single leaves)", leaves="L<=2 in the quantified condition",
+                        flatten_universal="2 groups (2+1 elements) x 2-3 free objects, 4 condition kinds x 4 positions"),
           "thorough": dict(free_domain=3, universal_domain="1..3", leaves="L<=3, cache on and off")}
 LIMITS = {"quick": dict(max_paths=8000, max_wall=90), "thorough": dict(max_paths=60000, max_wall=400)}
 FIDELITY_EVERY = {"quick": 3, "thorough": 1}
@@ -97,7 +98,83 @@ class C10(Case):
         return obs
 
 
+class C10Flatten(Case):
+    """Scenario: the universal is an UNNEST expression t = flatten(g.items) over another variable g.  Scope "all": g is bound by
+    nothing else and only x is selected - the universal ranges over every element of every group.  Scope "per_g": a sibling
+    condition to the LEFT of the for_all binds g and (x, g) is selected - per binding the universal ranges over the elements of
+    that g's (non-empty) collection.  (g free AND selected is left out: the statement does not fix which of the two is meant.)
+    The element is used directly as a comparison operand (elements define the ordering operators) or through an attribute."""
+    prop = "C10"
+
+    def run(self, mk):
+        from entity_query_language import flatten, let
+        from entity_query_language.cache_data import enable_caching, disable_caching
+        from props.c16 import Par, Elem
+        from symex.eqlshapes import Item
+        sp = self.spec
+        elems = [Elem(w=mk.int("e%d.w" % j), name="e%d" % j) for j in range(3)]
+        groups = [Par(k=0, items=[elems[0], elems[1]], name="g0"), Par(k=1, items=[elems[2]], name="g1")]
+        xs = [Item(a=mk.int("x%d.a" % i), b=mk.int("x%d.b" % i), name="x%d" % i) for i in range(sp.get("n", 2))]
+        data = dict(elems=elems, groups=groups, xs=xs, evals=[])
+        if sp.get("cache") == "off":
+            disable_caching()
+        try:
+            with symbolic_mode():
+                x = let(Item, domain=xs)
+                g = let(Par, domain=groups)
+                t = flatten(g.items)
+                kind = sp["kind"]
+                if kind == "direct":
+                    c = t <= x.a
+                elif kind == "attr":
+                    c = t.w <= x.a
+                elif kind == "only_t":
+                    c = t > 0
+                elif kind == "not_direct":
+                    c = S.not_(t > x.a)
+                fa = for_all(t, c)
+                pos = sp.get("position", "only")
+                d = (x.b > 0)
+                if sp["scope"] == "per_g":
+                    d = and_(g.k >= 0, d)      # binds g (always true) before the quantifier is reached
+                conds = {"only": [fa], "and_right": [and_(d, fa)], "and_left": [and_(fa, d)], "multi": [d, fa]}[pos]
+                q = an(set_of([x, g], *conds)) if sp["scope"] == "per_g" else an(set_of([x], *conds))
+            for _ in range(2 if sp.get("twice") else 1):
+                rows = [[next((i for i, o in enumerate(xs) if o is r[x]), -1),
+                         next((j for j, o in enumerate(groups) if o is r[g]), -1) if sp["scope"] == "per_g" else 0]
+                        for r in q.evaluate()]
+                data["evals"].append(rows)
+        except Exception as e:
+            enable_caching()
+            return data, ["exc", type(e).__name__, str(e)[:200]]
+        enable_caching()
+        return data, data["evals"]
+
+    def obligations(self, alg, data, outcome):
+        if outcome and outcome[0] == "exc":
+            return [("no_exception:%s:%s" % (outcome[1], outcome[2][:80]), alg.const(False))]
+        sp = self.spec
+        obs = []
+        for n, rows in enumerate(data["evals"]):
+            pre = "eval%d:" % n
+            obs.append((pre + "cells", alg.const(all(i >= 0 and j >= 0 for i, j in rows))))
+            for i, xo in enumerate(data["xs"]):
+                for j, go in enumerate(data["groups"] if sp["scope"] == "per_g" else [None]):
+                    es = go.items if go is not None else data["elems"]
+                    if sp["kind"] == "only_t":
+                        ts = [alg.cmp("gt", e.w, 0) for e in es]
+                    else:
+                        ts = [alg.cmp("le", e.w, xo.a) for e in es]
+                    want = alg.and_(*ts)
+                    if sp.get("position", "only") != "only":
+                        want = alg.and_(want, alg.cmp("gt", xo.b, 0))
+                    obs.append((pre + "pair_x%d_g%d" % (i, j), alg.iff(alg.const([i, j] in rows), want)))
+        return obs
+
+
 def make_case(spec):
+    if spec.get("scenario") == "flatten_universal":
+        return C10Flatten(spec)
     return C10(spec)
 
 
@@ -140,6 +217,16 @@ def shapes(tier, seed):
             for pos in ("and_left", "and_right", "multi"):
                 if tier == "thorough" or rnd.random() < 0.6:
                     add(c, 2, d=d, position=pos)
+    # the universal is flatten(g.items): every element of the collection of the bound g
+    for kind in ("direct", "attr", "only_t", "not_direct"):
+        for pos in ("only", "and_right", "and_left", "multi"):
+            out.append(dict(scenario="flatten_universal", scope="all", kind=kind, position=pos))
+        for pos in ("and_right", "multi"):
+            out.append(dict(scenario="flatten_universal", scope="per_g", kind=kind, position=pos))
+            out.append(dict(scenario="flatten_universal", scope="per_g", kind=kind, position=pos, twice=True))
+        out.append(dict(scenario="flatten_universal", scope="all", kind=kind, position="and_right", twice=True))
+        out.append(dict(scenario="flatten_universal", scope="per_g", kind=kind, position="and_right", cache="off"))
+        out.append(dict(scenario="flatten_universal", scope="all", kind=kind, position="only", n=3))
     # two free variables
     for c in (["cmp", "gt", ["a", "x", "a"], ["a", "u", "a"]],
               ["and", ["cmp", "gt", ["a", "x", "a"], ["a", "u", "a"]], ["cmp", "lt", ["a", "y", "a"], ["a", "u", "b"]]],
